@@ -3,7 +3,8 @@
 Case script (both drivers, see harness/drivers/c12_driver.c):
   setkey <alg> <op> <mode> <bits> <keyhex|-> [nulls]
   state <ivhex> <off> <sbhex>
-  crypt <fn> <align> <nulls> <hex | - | @start:len>
+  crypt <fn> <align> <nulls> <hex | - | @start:len | #seed:len>
+  use <slot> / share <slot>      (context slots 0..3: several contexts / interleaved streams; see the C driver)
   expect <hex>        (monitor only: concatenated output of the current phase so far)
 """
 import glob
@@ -23,8 +24,22 @@ REPO_SOURCES = ["muggle/c/crypt/aes.c", "muggle/c/crypt/des.c", "muggle/c/crypt/
                 "muggle/c/crypt/internal/internal_aes.c", "muggle/c/crypt/internal/internal_des.c"]
 HEADER_LINES = 0
 SHRINK = False
+
+# The extracted model recurses once per byte / per block (Peano `length`, non-tail-recursive list functions): a single
+# call over a megabyte needs a few hundred MB of stack.  The drivers are children of the check process, so the stack
+# limit is raised here, once, for everything this process starts (soft limit only, never above the hard limit).
+try:
+    import resource as _resource
+    _soft, _hard = _resource.getrlimit(_resource.RLIMIT_STACK)
+    _want = 8 << 30
+    if _hard != _resource.RLIM_INFINITY:
+        _want = min(_want, _hard)
+    if _soft != _resource.RLIM_INFINITY and _soft < _want:
+        _resource.setrlimit(_resource.RLIMIT_STACK, (_want, _hard))
+except (ImportError, ValueError, OSError):
+    pass
 CASE_TIMEOUT = 10.0
-MODEL_CASE_TIMEOUT = 20.0
+MODEL_CASE_TIMEOUT = 240.0     # one call over more than 65536 blocks runs for a minute in the extracted model
 
 # ---------------------------------------------------------------------------
 # Independent reference: AES (FIPS-197), DES / TDEA (FIPS 46-3, SP 800-67) and the SP 800-38A
@@ -657,7 +672,7 @@ def gen_params_text(repo, gen_inc, builddir):
            "   on every run; do not edit.  Tables are printed by a C program that #includes the .c file; the",
            "   PERM_OP sequences, lookup order, shift schedule and the straight-line circuits are read from the source text",
            "   (calls of same-file static helpers are followed). *)",
-           "From Coq Require Import List NArith String.", "From MV Require Import C12.Bitvec.", "Import ListNotations.", "Local Open Scope N_scope.", "",
+           "From Coq Require Import List NArith ZArith Bool String.", "From MV Require Import C12.Bitvec Lib.Leaf.", "Import ListNotations.", "Local Open Scope N_scope.", "",
            tab("des_sptrans", rows[:8]), tab("des_skb", rows[8:]),
            "(* (first macro argument is r, shift n, mask m) for each PERM_OP(a,b,tt,n,m) *)",
            "Definition des_ip_ops : list (bool * nat * N) := %s." % ip,
@@ -692,10 +707,59 @@ def gen_params_text(repo, gen_inc, builddir):
     txt.append("   muggle_des_set_key(<op>, <mode>, <key>, &ctx->ctxN) calls; the contexts these calls fill *)")
     txt.append("Definition tdes_set_key_foreign : list string := [%s]." % "; ".join('"%s"%%string' % f.replace('"', '""') for f in foreign))
     txt.append("Definition tdes_set_key_targets : list nat := [%s]%%nat.\n" % ";".join(map(str, targets)))
+    txt += setkey_text_params(repo, gen_inc, builddir, attempt)
     for k, msg in enumerate(fails):
         txt.append("(* EXTRACTION FAILED: %s *)" % msg.replace("*)", "* )").replace("(*", "( *"))
         txt.append('Definition extraction_failed_%d : ("%s" = "")%%string := eq_refl.\n' % (k + 1, msg.replace('"', '""')))
     return "\n".join(txt)
+
+
+# the parameter-validation front of the set_key entry points, re-translated from the C text on every run
+# (lib/props/c12_slice.py): (repo file, function, scalar fields of its structure parameter, opaque callees, call slots)
+SETKEY_FUNCS = [
+    ("muggle/c/crypt/openssl/openssl_aes.c", "muggle_openssl_aes_set_key", ["rounds"], ["openssl_key_expansion"], 1),
+    ("muggle/c/crypt/aes.c", "muggle_aes_set_key", ["op", "mode"], ["muggle_openssl_aes_set_key"], 1),
+    ("muggle/c/crypt/des.c", "muggle_des_set_key", ["op", "mode"], ["muggle_des_set_key_inner"], 1),
+]
+SETKEY_ENUMS = ["MUGGLE_OK", "MUGGLE_ERR_NULL_PARAM", "MUGGLE_ERR_INVALID_PARAM", "MUGGLE_ERR_CRYPT_KEY_SIZE",
+                "MUGGLE_DECRYPT", "MUGGLE_ENCRYPT", "MUGGLE_BLOCK_CIPHER_MODE_ECB", "MUGGLE_BLOCK_CIPHER_MODE_CBC",
+                "MUGGLE_BLOCK_CIPHER_MODE_CFB", "MUGGLE_BLOCK_CIPHER_MODE_OFB", "MUGGLE_BLOCK_CIPHER_MODE_CTR",
+                "MAX_MUGGLE_BLOCK_CIPHER_MODE"]
+SETKEY_HEADERS = ["muggle/c/base/err.h", "muggle/c/crypt/aes.h", "muggle/c/crypt/des.h", "muggle/c/crypt/tdes.h"]
+
+
+def setkey_text_params(repo, gen_inc, builddir, attempt):
+    """Lines for Params_C12.v: the enumeration values the set_key functions compare with / return, and the three
+    functions as Gallina terms over Z (gen_<name>) with the pointer arguments of their key-schedule calls
+    (gen_<name>_ptrargs).  A function that cannot be translated becomes a definition of the wrong type (unit) plus
+    an extraction_failed_<k> definition: the obligations about it no longer type-check."""
+    from props import c12_slice as S
+    flags = ["-std=gnu11", "-I" + repo, "-I" + gen_inc, "-DNDEBUG", "-DMUGGLE_C_EXPORTS"]
+    bd = builddir
+    out = ["", "(* ---- parameter validation of the set_key entry points, translated from the C text of this run by",
+           "   lib/props/c12_slice.py (clang JSON AST -> Gallina over Z, see that file for the conventions):",
+           "   arguments f_<field> (entry values of the scalar fields, sorted), nn_<pointer parameter> (0 = NULL), the integer",
+           "   parameters, ores_k (value returned by the k-th key-schedule call); result (return value, final fields,",
+           "   call slot = (callee index or 0, its integer arguments, padded with 0)) ---- *)",
+           "Local Open Scope Z_scope."]
+    vals = attempt("enumeration values", lambda: S.enum_values(SETKEY_ENUMS, SETKEY_HEADERS, flags, bd), {})
+    for n in SETKEY_ENUMS:
+        if n in vals:
+            out.append("Definition enum_%s : Z := %d." % (n, vals[n]))
+        else:
+            out.append("Definition enum_%s : unit := tt." % n)
+    out.append("")
+    for src, name, fields, opaque, nslots in SETKEY_FUNCS:
+        res = attempt(name, lambda: S.translate(os.path.join(repo, src), name, flags, "gen_" + name, fields, opaque, nslots,
+                                                SETKEY_HEADERS, bd), None)
+        if res is None:
+            out.append("Definition gen_%s : unit := tt.\nDefinition gen_%s_ptrargs : list string := [].\n" % (name, name))
+        else:
+            out.append(res[0].rstrip("\n"))
+            out.append("Definition gen_%s_ptrargs : list string := [%s].\n" % (
+                name, "; ".join('"%s"%%string' % a for a in res[1])))
+    out.append("Local Close Scope Z_scope.")
+    return out
 
 
 def gen_params(ctx):
@@ -826,7 +890,8 @@ def invalid_case(rng, name):
         elif what == "mode":
             m = str(rng.choice([-1, 5, 6, 99, 2147483647]))
         elif what == "bits":
-            b = rng.choice([0, 64, 127, 129, 160, 512, -128, 1024])
+            b = rng.choice([x for x in AES_BITS_SWEEP if x not in AES_VALID_BITS]) if rng.chance(1, 2) else \
+                rng.choice([0, 64, 96, 127, 129, 136, 160, 191, 193, 200, 224, 255, 257, 288, 320, 384, 512, -128, 1024])
         elif what == "nullk":
             nul = "k"
         elif what == "nullc":
@@ -835,6 +900,8 @@ def invalid_case(rng, name):
             nul = "2"
         else:
             nul = "3"
+        if what == "bits" and alg == "aes":
+            key = _key_for(rng, alg, b)
         lines.append("setkey %s %s %s %d %s %s" % (alg, o, m, b, _hx(key), nul))
         lines.append("crypt %s 0 - %s" % (mode, _hx(_rbytes(rng, bs))))
     else:
@@ -875,15 +942,25 @@ def reject_matrix_case(rng, alg, bits, mode):
     good = _rbytes(rng, 2 * bs)
     lines.append("crypt %s %d - %s" % (mode, rng.below(8), _hx(good)))
     if mode in ("ecb", "cbc"):
-        for ln in (1, bs // 2, bs - 1, bs + 1, bs + bs // 2, 2 * bs - 1, 2 * bs + bs // 2, 4 * bs - 4, 5 * bs + bs // 2):
+        # every length 0 .. 4 * bs + 1 (zero and the block multiples are valid, everything else is refused), some longer
+        for ln in list(range(0, 4 * bs + 2)) + [5 * bs + bs // 2, 16 * bs - 1, 16 * bs, 16 * bs + 1, 255, 256, 257]:
             lines.append("crypt %s %d - %s" % (mode, rng.below(8), _hx(_rbytes(rng, ln))))
     else:
-        for off in (bs, bs + 1, 2 * bs, 255, 65536, 4294967295):
+        # every offset 0 .. 2 * bs + 1 (valid below bs), then values that become valid when masked / narrowed
+        offs = list(range(0, 2 * bs + 2)) + [31, 32, 33, 63, 64, 127, 128, 255, 256, 256 + bs - 1, 257, 65535, 65536,
+                                               65536 + bs - 1, 2147483648, 4294967295 - bs, 4294967295 - bs + 1, 4294967295]
+        lens = [1, bs - 1, bs, bs + 3, 0, 2 * bs + 1, 2]
+        for j, off in enumerate(offs):
             lines.append("state %s %d %s" % (_hx(iv), off, _hx(_rbytes(rng, bs))))
-            lines.append("crypt %s %d - %s" % (mode, rng.below(8), _hx(_rbytes(rng, rng.range(1, 2 * bs)))))
+            lines.append("crypt %s %d - %s" % (mode, rng.below(8), _hx(_rbytes(rng, lens[j % len(lens)]))))
         lines.append("state %s %d %s" % (_hx(iv), rng.below(bs), _hx(_rbytes(rng, bs))))
-    for ch in _RELEVANT_NULLS[mode]:
-        lines.append("crypt %s %d %s %s" % (mode, rng.below(8), ch, _hx(_rbytes(rng, bs))))
+    # every non-empty subset of the pointer arguments as NULL (with data, and with zero length); pointers the function
+    # does not have are ignored by the driver, so those calls stay valid
+    letters = "ciovfs"
+    for k in range(1, 1 << len(letters)):
+        nul = "".join(l for i, l in enumerate(letters) if (k >> i) & 1)
+        if set(nul) & set(_RELEVANT_NULLS[mode]) or k % 5 == 0:
+            lines.append("crypt %s %d %s %s" % (mode, rng.below(8), nul, _hx(_rbytes(rng, bs)) if k % 4 else "-"))
     for other in MODES:
         if other != mode:
             lines.append("crypt %s %d - %s" % (other, rng.below(8), _hx(_rbytes(rng, bs))))
@@ -986,6 +1063,243 @@ def key_relation_cases(rng, quick):
     return cases
 
 
+# ---------------------------------------------------------------------------
+# the parameter-validation surface of every set_key / crypt entry point (systematic, not sampled)
+
+# key-bit counts for muggle_aes_set_key: EVERY integer -8 .. 328 (all multiples of 8 and of 32 below 320 - the Rijndael
+# sizes 160 / 224 among them - and every neighbour of a valid size), the negated sizes, multiples of 32 and of 64 further
+# up, values that become a valid size when narrowed to 8 or 16 bits or when divided / shifted, and the ends of int
+AES_BITS_SWEEP = sorted(set(
+    list(range(-8, 329)) +
+    [-256, -257, -255, -192, -193, -191, -128, -129, -127, -160, -224, -64, -32, -16] +
+    list(range(352, 1025, 32)) + [383, 385, 447, 449, 511, 513, 639, 641, 767, 769, 1023, 1025] +
+    [1280, 1536, 2048, 4096, 8192, 16, 24, 12, 16 * 8 * 8, 24 * 8 * 8, 32 * 8 * 8] +
+    [65536, 65536 + 128, 65536 + 160, 65536 + 192, 65536 + 224, 65536 + 256, 65535, 32768 + 128, 32768, 65536 * 2 + 128] +
+    [(1 << 24) + 128, (1 << 24) + 192, (1 << 30), (1 << 30) + 256, (1 << 31) - 1, (1 << 31) - 128, -(1 << 31), -(1 << 31) + 128,
+     -(1 << 31) + 256, 128 * 65536, 192 * 65536, 256 * 65536, 128 << 8, 192 << 8, 256 << 8]))
+AES_VALID_BITS = (128, 192, 256)
+# op / mode values next to and far from the enumeration (0 / 1 and 0 .. 4 are written as names), values that become
+# valid when narrowed to 8 or 16 bits, the ends of int
+BAD_OPS = [-1, 2, 3, -2, 4, 255, 256, 257, 258, 65536, 65537, -255, -256, 2147483647, -2147483648, -2147483647]
+BAD_MODES = [-1, 5, 6, 7, 8, -2, -5, 255, 256, 257, 260, 261, 65536, 65540, 65541, 2147483647, -2147483648, -2147483644]
+
+
+def _key_for(rng, alg, bits):
+    """exact key for a valid size; for an invalid AES size enough bytes that an implementation wrongly accepting it
+    would read inside the buffer (so that the verdict is the return code, not only an ASan report)"""
+    if alg != "aes":
+        return _rbytes(rng, {"des": 8, "tdes": 24}[alg])
+    if bits in AES_VALID_BITS:
+        return _rbytes(rng, bits // 8)
+    return _rbytes(rng, min(64, max(32, (max(bits, 0) + 7) // 8)))
+
+
+def _probe_lines(rng, alg, mode, nblk=1):
+    """a state line and one call on the context just made (known answer through the monitor's reference when the context
+    exists, `noctx` when set_key refused)"""
+    bs = BS[alg]
+    n = bs * nblk if mode in ("ecb", "cbc") else rng.range(1, 2 * bs)
+    return ["state %s 0 %s" % (_hx(_rbytes(rng, bs)), _hx(bytes(bs))),
+            "crypt %s %d - %s" % (mode, rng.below(8), _hx(_rbytes(rng, n)))]
+
+
+def keybits_matrix_case(rng, mode, op, sweep=None, name=None):
+    """muggle_aes_set_key over the whole sweep of key-bit counts, one context attempt per value; every accepted context
+    and every 9th refused one is followed by a call (accepted: must be AES of that size; refused: nothing to run on)"""
+    lines = []
+    for j, b in enumerate(sweep if sweep is not None else AES_BITS_SWEEP):
+        lines.append("setkey aes %s %s %d %s" % (op, mode, b, _hx(_key_for(rng, "aes", b))))
+        if b in AES_VALID_BITS or j % 9 == 0:
+            lines += _probe_lines(rng, "aes", mode)
+    return V.Case(name or "kbits-aes-%s-%s" % (mode, op), lines, {"kind": "invalid", "alg": "aes", "bits": 0, "mode": mode})
+
+
+def opmode_matrix_case(rng, alg, name=None):
+    """every (op, mode) pair from valid names and out-of-range integers through set_key; the accepted ones are used"""
+    lines = []
+    ops = ["enc", "dec"] + [str(x) for x in BAD_OPS]
+    modes = MODES + [str(x) for x in BAD_MODES]
+    j = 0
+    for o in ops:
+        for m in modes:
+            bits = {"aes": AES_VALID_BITS[j % 3], "des": 64, "tdes": 192}[alg]
+            j += 1
+            lines.append("setkey %s %s %s %d %s" % (alg, o, m, bits, _hx(_key_for(rng, alg, bits))))
+            if o in _OPS and m in MODES:
+                lines += _probe_lines(rng, alg, m, 2)
+            elif j % 7 == 0:
+                lines += _probe_lines(rng, alg, m if m in MODES else "ecb")
+    return V.Case(name or "pvm-%s-opmode" % alg, lines, {"kind": "invalid", "alg": alg, "bits": 0, "mode": "ecb"})
+
+
+def setkey_nulls_matrix_case(rng, alg, name=None):
+    """every subset of NULL pointer arguments of set_key, crossed with valid / invalid op, mode (and key size): which
+    error is reported first is compared with the model, that the call is refused is the monitor's"""
+    letters = "k23c" if alg == "tdes" else "kc"
+    subsets = ["".join(l for i, l in enumerate(letters) if (k >> i) & 1) or "-" for k in range(1 << len(letters))]
+    combos = [("enc", "ecb"), ("dec", "ctr"), ("enc", "cbc"), ("7", "cbc"), ("enc", "9"), ("-1", "-1"), ("dec", "ofb"), ("enc", "cfb")]
+    sizes = {"aes": (128, 192, 256, 160, 224, 0, 64, -128), "des": (64,), "tdes": (192,)}[alg]
+    lines = []
+    for nul in subsets:
+        for o, m in combos:
+            for bits in sizes:
+                lines.append("setkey %s %s %s %d %s %s" % (alg, o, m, bits, _hx(_key_for(rng, alg, bits)), nul))
+                if nul == "-" and o in _OPS and m in MODES and (alg != "aes" or bits in AES_VALID_BITS):
+                    lines += _probe_lines(rng, alg, m)
+        lines += _probe_lines(rng, alg, "ecb")
+    return V.Case(name or "pnm-%s-nulls" % alg, lines, {"kind": "invalid", "alg": alg, "bits": 0, "mode": "ecb"})
+
+
+# ---------------------------------------------------------------------------
+# several contexts / interleaved streams, and single calls over very long messages
+
+def interleaved_case(rng, name, specs, shared=False):
+    """specs: [(alg, bits, mode, first_op, n)], one per context slot.  Every slot runs its own round trip (phase 1 in
+    first_op, phase 2 the opposite direction over @slices of its own phase-1 output), but the CALLS of the slots are
+    fed alternately in a random merge order.  shared=True: slot 1 does not make a context of its own but uses slot 0's
+    context object (`share 0`) with its own caller-held iv / offset / stream block.  A library that keeps anything
+    between calls outside the caller's buffers (static scratch or keystream block, cached 'last key' schedule) mixes
+    the streams up; the monitor judges every slot as if it had run alone."""
+    plans = []
+    for k, (alg, bits, mode, first, n) in enumerate(specs):
+        bs = BS[alg]
+        if mode in ("ecb", "cbc"):
+            n -= n % bs
+        key = gen_key(rng, alg, bits, "rand")
+        iv = gen_iv(rng, mode, bs)
+        msg = gen_msg(rng, n)
+        unit = bs if mode in ("ecb", "cbc") else 1
+        plans.append({"alg": alg, "bits": bits, "mode": mode, "first": first, "n": n, "key": key, "iv": iv, "msg": msg,
+                      "unit": unit, "bs": bs})
+    if shared:
+        for f in ("alg", "bits", "mode", "first", "key", "bs", "unit"):
+            plans[1][f] = plans[0][f]
+        if plans[1]["mode"] in ("ecb", "cbc"):
+            plans[1]["n"] -= plans[1]["n"] % plans[1]["bs"]
+            plans[1]["msg"] = plans[1]["msg"][:plans[1]["n"]]
+        plans[1]["iv"] = gen_iv(rng, plans[1]["mode"], plans[1]["bs"])
+    lines = []
+    cur = [0]
+
+    def use(k):
+        if cur[0] != k:
+            lines.append("use %d" % k)
+            cur[0] = k
+
+    for phase in (0, 1):
+        queues = []
+        for k, p in enumerate(plans):
+            use(k)
+            op = p["first"] if phase == 0 else ("dec" if p["first"] == "enc" else "enc")
+            if shared and k == 1:
+                lines.append("share 0")
+            else:
+                lines.append("setkey %s %s %s %d %s" % (p["alg"], op, p["mode"], p["bits"], _hx(p["key"])))
+            if p["mode"] != "ecb":
+                lines.append("state %s 0 %s" % (_hx(p["iv"]), _hx(bytes(p["bs"]))))
+            q = []
+            for (st, ln) in partition(rng, p["n"], p["unit"], rng.range(2, 7)):
+                src = _hx(p["msg"][st:st + ln]) if phase == 0 else "@%d:%d" % (st, ln)
+                q.append("crypt %s %d - %s" % (p["mode"], rng.choice([0, 0, 1, 3, 4, 7]), src))
+            queues.append(q)
+        while any(queues):
+            k = rng.choice([i for i, q in enumerate(queues) if q])
+            use(k)
+            lines.append(queues[k].pop(0))
+    return V.Case(name, lines, {"kind": "interleaved", "alg": specs[0][0], "bits": specs[0][1], "mode": specs[0][2]})
+
+
+def interleaved_cases(rng, quick):
+    out = []
+    stream_modes = ["cfb", "ofb", "ctr"]
+    pairs = [(("aes", 128), ("aes", 128)), (("aes", 256), ("aes", 192)), (("des", 64), ("des", 64)), (("tdes", 192), ("tdes", 192)),
+             (("des", 64), ("tdes", 192)), (("tdes", 192), ("des", 64)), (("aes", 128), ("des", 64)), (("aes", 192), ("tdes", 192))]
+    reps = 1 if quick else 8
+    j = 0
+    for r in range(reps):
+        for (a, b) in pairs:
+            # same mode in both slots (a shared static scratch block of that mode function) ...
+            for mode in MODES:
+                n1, n2 = rng.range(1, 9 * BS[a[0]]), rng.range(1, 9 * BS[b[0]])
+                out.append(interleaved_case(rng, "ilv-%s%d-%s%d-%s-%d" % (a[0], a[1], b[0], b[1], mode, j),
+                                            [(a[0], a[1], mode, rng.choice(["enc", "dec"]), n1 + BS[a[0]]),
+                                             (b[0], b[1], mode, rng.choice(["enc", "dec"]), n2 + BS[b[0]])]))
+                j += 1
+            # ... and different modes
+            m1, m2 = rng.choice(MODES), rng.choice(stream_modes)
+            out.append(interleaved_case(rng, "ilv-%s%d-%s-%s%d-%s-%d" % (a[0], a[1], m1, b[0], b[1], m2, j),
+                                        [(a[0], a[1], m1, rng.choice(["enc", "dec"]), rng.range(16, 200)),
+                                         (b[0], b[1], m2, rng.choice(["enc", "dec"]), rng.range(16, 200))]))
+            j += 1
+        # two streams with separate caller-held state on ONE context object
+        for alg, bits in ALGS:
+            for mode in MODES:
+                out.append(interleaved_case(rng, "ilv-shared-%s%d-%s-%d" % (alg, bits, mode, j),
+                                            [(alg, bits, mode, rng.choice(["enc", "dec"]), rng.range(2 * BS[alg], 12 * BS[alg])),
+                                             (alg, bits, mode, "enc", rng.range(2 * BS[alg], 12 * BS[alg]))], shared=True))
+                j += 1
+        # three and four contexts at once
+        for _ in range(3):
+            specs = []
+            for _k in range(rng.range(3, 4)):
+                (alg, bits), mode = rng.choice(ALGS), rng.choice(MODES)
+                specs.append((alg, bits, mode, rng.choice(["enc", "dec"]), rng.range(BS[alg], 10 * BS[alg])))
+            out.append(interleaved_case(rng, "ilv-multi-%d" % j, specs))
+            j += 1
+    return out
+
+
+def long_call_case(rng, name, alg, bits, mode, op, n, tail=True):
+    """ONE call over n bytes (the data is the drivers' xorshift64* stream: too long for a hex line), then a short call
+    carrying the state on: a block counter narrower than unsigned int, or a separate bulk path for long inputs, shows
+    in the output bytes or in the chaining state left behind"""
+    bs = BS[alg]
+    if mode in ("ecb", "cbc"):
+        n -= n % bs
+    key = gen_key(rng, alg, bits, "rand")
+    lines = ["setkey %s %s %s %d %s" % (alg, op, mode, bits, _hx(key))]
+    if mode != "ecb":
+        lines.append("state %s 0 %s" % (_hx(gen_iv(rng, mode, bs)), _hx(bytes(bs))))
+    lines.append("crypt %s %d - #%d:%d" % (mode, rng.choice([0, 0, 1, 4]), rng.range(1, 2 ** 62), n))
+    if tail:
+        lines.append("crypt %s %d - %s" % (mode, rng.below(8), _hx(_rbytes(rng, 2 * bs if mode in ("ecb", "cbc") else bs + 5))))
+    return V.Case(name, lines, {"kind": "long", "alg": alg, "bits": bits, "mode": mode, "n": n})
+
+
+def long_call_cases(rng, quick):
+    out = []
+    ops = ("enc", "dec")
+    j = 0
+    # beyond 8 KiB (a bulk path) and beyond 64 KiB (a 16-bit byte counter) in one call: every algorithm, ECB / CBC / CTR
+    for alg, bits in (("aes", rng.choice([128, 192, 256])), ("des", 64), ("tdes", 192)):
+        bs = BS[alg]
+        for mode in ("ecb", "cbc", "ctr") + (() if quick else ("cfb", "ofb")):
+            out.append(long_call_case(rng, "long-8k-%s%d-%s" % (alg, bits, mode), alg, bits, mode, ops[j % 2], 8192 + 3 * bs + (5 if mode == "ctr" else 0)))
+            j += 1
+            if alg != "tdes" or not quick:
+                out.append(long_call_case(rng, "long-64k-%s%d-%s" % (alg, bits, mode), alg, bits, mode, ops[j % 2],
+                                          65536 + bs + (3 if mode == "ctr" else 0)))
+                j += 1
+    if quick:
+        return out
+    # more than 65536 BLOCKS in one call (65536 * bs + bs bytes: a 16-bit block counter wraps to 1 block) and about
+    # 1.1 MiB, one per block size and loop family; thorough tier only (the extracted model needs 10 - 70 s per case)
+    # (the byte-at-a-time CTR model runs ~150 s per MiB: CTR is taken at 65537 blocks for AES and DES and at 1.1 MiB
+    #  for DES; the Triple-DES loops of tdes.c at 65537 blocks for ECB / CBC)
+    for alg, bits in (("aes", rng.choice([128, 192, 256])), ("des", 64), ("tdes", 192)):
+        bs = BS[alg]
+        for mode in ("ecb", "cbc", "ctr"):
+            if not (alg == "tdes" and mode == "ctr"):
+                out.append(long_call_case(rng, "long-65537blk-%s%d-%s" % (alg, bits, mode), alg, bits, mode, ops[j % 2],
+                                          65536 * bs + bs + (3 if mode == "ctr" else 0)))
+                j += 1
+            if alg == "des" or (alg == "aes" and mode != "ctr"):
+                out.append(long_call_case(rng, "long-1.1MiB-%s%d-%s" % (alg, bits, mode), alg, bits, mode, ops[j % 2],
+                                          1153440 + (7 if mode == "ctr" else 0)))
+                j += 1
+    return out
+
+
 def generate(rng, tier):
     cases = []
     quick = tier == "quick"
@@ -1031,6 +1345,15 @@ def generate(rng, tier):
     for alg, bits in ALGS:
         for mode in MODES:
             cases.append(reject_matrix_case(rng, alg, bits, mode))
+    # set_key: the whole key-size sweep in every mode and direction; the (op, mode) and NULL-pointer matrices
+    for mode in MODES:
+        for op in ("enc", "dec"):
+            cases.append(keybits_matrix_case(rng, mode, op))
+    for alg in ("aes", "des", "tdes"):
+        cases.append(opmode_matrix_case(rng, alg))
+        cases.append(setkey_nulls_matrix_case(rng, alg))
+    cases += interleaved_cases(rng, quick)
+    cases += long_call_cases(rng, quick)
     ninv = 120 if quick else 1500
     for j in range(ninv):
         cases.append(invalid_case(rng, "inv-%d" % j))
@@ -1042,6 +1365,17 @@ def search(rng, diverging, tier):
     """more cases around what diverged (same algorithm / mode), when a proof or the correspondence broke"""
     focus = [(c.meta.get("alg"), c.meta.get("bits"), c.meta.get("mode")) for c in diverging[:20] if c.meta.get("alg")]
     out = []
+    # the parameter-validation surface far beyond the standard sweep: every key-bit count -2100 .. 2100, every multiple
+    # of 8 up to 2^17, sizes around every power of two; the (op, mode) and NULL matrices again with fresh keys
+    wide = sorted(set(list(range(-2100, 2101)) + list(range(0, (1 << 17) + 1, 8)) +
+                      [s * (1 << k) + d for k in range(8, 31) for s in (1, -1) for d in (-256, -192, -128, -1, 0, 1, 128, 160, 192, 224, 256)
+                       if -(1 << 31) <= s * (1 << k) + d < (1 << 31)]))
+    for j in range(0, len(wide), 700):
+        out.append(keybits_matrix_case(rng, MODES[(j // 700) % 5], ("enc", "dec")[(j // 700) % 2], sweep=wide[j:j + 700],
+                                       name="search-kbits-%d" % (j // 700)))
+    for alg in ("aes", "des", "tdes"):
+        out.append(opmode_matrix_case(rng, alg, name="search-pvm-%s" % alg))
+        out.append(setkey_nulls_matrix_case(rng, alg, name="search-pnm-%s" % alg))
     for j in range(600):
         if focus and rng.chance(3, 4):
             alg, bits, mode = rng.choice(focus)
@@ -1080,7 +1414,62 @@ def _parse_result(ln):
     return {"rc": w[0], "out": w[1][4:], "iv": w[2][3:], "off": w[3][4:], "sb": w[4][3:], "extra": w[5:]}
 
 
+def prng_bytes(seed, n):
+    """xorshift64* byte stream of the drivers' `#seed:len` data source"""
+    M = (1 << 64) - 1
+    x = seed or 0x9E3779B97F4A7C15
+    out = bytearray()
+    while len(out) < n:
+        x ^= x >> 12
+        x = (x ^ (x << 25)) & M
+        x ^= x >> 27
+        out += ((x * 2685821657736338717) & M).to_bytes(8, "little")
+    return bytes(out[:n])
+
+
 def monitor(case, lines):
+    """Slots are independent by the property (every piece of chaining state is caller-held, a context is only read by
+    the mode functions): the script and the implementation's lines are split by context slot and each slot's
+    sub-script is judged on its own, as if it had run alone.  `share k` becomes slot k's latest set_key line (and the
+    line the implementation printed for it)."""
+    if not any(ln.startswith(("use ", "share ")) for ln in case.lines):
+        return _monitor_single(case, lines)
+    sub = {}            # slot -> ([script lines], [implementation lines])
+    last_setkey = {}    # slot -> (script line, implementation line)
+    cur, k = 0, 0
+    for ln in case.lines:
+        w = ln.split()
+        if not w:
+            continue
+        sc, im = sub.setdefault(cur, ([], []))
+        if w[0] == "use":
+            if len(w) == 2 and w[1].isdigit() and int(w[1]) < 4:
+                cur = int(w[1])
+            continue
+        if w[0] == "share":
+            src = int(w[1]) if len(w) == 2 and w[1].isdigit() else -1
+            if src in last_setkey and src != cur:
+                sc.append(last_setkey[src][0])
+                im.append(last_setkey[src][1])
+            continue
+        sc.append(ln)
+        if w[0] in ("setkey", "crypt"):
+            if k >= len(lines):
+                return "missing output for %r" % ln[:80]
+            im.append(lines[k])
+            if w[0] == "setkey":
+                last_setkey[cur] = (ln, lines[k])
+            k += 1
+    if k != len(lines):
+        return "%d unexpected extra output line(s)" % (len(lines) - k)
+    for slot in sorted(sub):
+        msg = _monitor_single(V.Case("%s/slot%d" % (case.name, slot), sub[slot][0], case.meta), sub[slot][1])
+        if msg:
+            return "context slot %d (fed alternately with the other slots): %s" % (slot, msg)
+    return None
+
+
+def _monitor_single(case, lines):
     k = 0                         # index into implementation lines
     cipher = None                 # RefCipher of the current phase (None: no usable context)
     ph = None                     # current phase description
@@ -1155,6 +1544,9 @@ def monitor(case, lines):
             if ((gw[:2] == ["setkey", "OK"]) != valid) or len(gw) < 2 or gw[0] != "setkey":
                 return "set_key(%s): parameters are %s but the call returned %r" % (
                     " ".join(w[1:5]) + " nulls=" + nulls, "valid" if valid else "INVALID (must be rejected)", got)
+            if not valid and "ks=untouched" not in gw[2:]:
+                return "set_key(%s) refused the call (%s) but wrote into the key-schedule area of the context" % (
+                    " ".join(w[1:5]) + " nulls=" + nulls, gw[1])
             cipher = RefCipher(alg, key[:_KEYLEN.get(alg, len(key))]) if valid else None
             ph = {"alg": alg, "bits": bits, "mode": m, "enc": _OPS.get(o), "key": key, "ok": valid,
                   "all_in": bytearray(), "all_out": bytearray(), "slices_tile": True, "next_slice": 0,
@@ -1201,6 +1593,10 @@ def monitor(case, lines):
                 if s != ph["next_slice"]:
                     ph["slices_tile"] = False
                 ph["next_slice"] = s + l
+            elif src.startswith("#"):
+                sd, l = (int(x) for x in src[1:].split(":"))
+                data = prng_bytes(sd, l)
+                ph["slices_tile"] = False
             else:
                 data = b"" if src == "-" else bytes.fromhex(src)
                 ph["slices_tile"] = False
@@ -1289,7 +1685,19 @@ RULE = ("every algorithm/key size (AES-128/192/256, DES, 3DES) x mode (ECB, CBC,
         "0..4096 bytes (quick tier: mostly below 700 bytes plus one 4096-byte message per algorithm and mode) cut into 1..8 chunks per direction with the state carried, aligned and "
         "misaligned buffers, a second phase that feeds the implementation's own output back in the opposite direction; "
         "parameter-rejection scripts (bad op/mode/key size, NULL pointers, non-block lengths, offset >= block size, mode "
-        "function not matching the context); related keys (krel-*: 3DES with K1=K2=K3, K1=K3, K1=K2, K2=K3, and K_i = K_j xor "
+        "function not matching the context); the whole parameter-validation surface, systematically: muggle_aes_set_key with EVERY "
+        "key-bit count -8..328 (all multiples of 8 and 32 up to 320 - 160 and 224 among them - and every neighbour of 128/192/256), "
+        "negated sizes, multiples of 32 up to 1024, sizes that are valid only after narrowing to 8/16 bits or after a shift, the ends "
+        "of int, in every mode and both directions (kbits-*: 413 sizes x 10); every (op, mode) pair from the names and 16 + 18 "
+        "out-of-range integers (next to the enumerations, valid only after narrowing) for AES/DES/3DES (pvm-*); every subset of NULL "
+        "set_key pointers x valid/invalid op, mode, size (pnm-*); per algorithm and mode every ECB/CBC length 0..4*bs+1, every stream "
+        "offset 0..2*bs+1 plus values valid only after masking, zero-length calls, every subset of NULL call pointers (rejmx-*); a "
+        "refused set_key must leave the key-schedule area of the context untouched; "
+        "several contexts at once (ilv-*: 2-4 context slots of the same or of different algorithms, also two streams with separate "
+        "caller-held state on ONE context object, their calls fed alternately in a random merge order, each slot judged as if it had "
+        "run alone); single calls over long messages (long-*: 8 KiB+, 64 KiB+ in one call in the quick tier; thorough tier: 65537 "
+        "blocks = 65536*bs+bs bytes and 1.1 MiB in ONE call for ECB/CBC/CTR of every loop family, data from the drivers' xorshift64* "
+        "stream); related keys (krel-*: 3DES with K1=K2=K3, K1=K3, K1=K2, K2=K3, and K_i = K_j xor "
         "0x80 / 0x01 (parity-equivalent) / 0xfe / 0x7f / 0x81 / 0x40 / 0x02 / 0xff in one byte or all bytes for the position "
         "pairs (3,1) (1,3) (2,1) (3,2), the 192 single-bit neighbours of a two-key and of a one-key triple, constant / weak / "
         "semi-weak keys in related positions; DES: parity-equivalent keys and the 64 single-bit neighbours; AES: single-bit "
@@ -1325,9 +1733,17 @@ TRUSTED_BASE = [
     "ctx->ctxN); the obligation tdes_set_key_text_is_three_schedule_calls requires that list to be empty and the calls to "
     "fill exactly ctx1, ctx2, ctx3.  Which key and direction each call receives is not decided by the scan (so pointer "
     "locals as in a restructured switch stay quiet); that is checked by the ks= comparison of the three schedules on every setkey",
+    "the parameter validation of muggle_openssl_aes_set_key (the key-size chain), muggle_aes_set_key and muggle_des_set_key is tied "
+    "to the model by a TRANSLATOR: lib/props/c12_slice.py (an extension of the shared leaf translator lib/leaftrans.py) executes "
+    "the clang JSON AST of the C text of this run symbolically into one Gallina term over Z per function (coq/gen/Params_C12.v "
+    "gen_muggle_*): integer parameters, pointer parameters as 0 / non-0, the scalar fields op / mode / rounds, if / else / switch "
+    "/ locals, the key-schedule call as an opaque call slot with its integer arguments; enumeration values printed by a C program. "
+    "Trusted: clang 14's AST, that translator, and that NDEBUG removes MUGGLE_ASSERT_MSG as in the release build.  "
+    "Not tied by text: muggle_tdes_set_key's argument chain (source scan above + differential run), the check chains of the "
+    "fifteen crypt functions (differential run, monitor, and the API theorems over the transcribed chains)",
     "little-endian host (uint32_t/uint64_t views of byte buffers, the CTR nonce read as bytes); caller buffers do not alias",
 ]
-ASSUMPTIONS = ["input, output and iv buffers are distinct objects (in-place CBC decryption is not part of the documented use)",
+ASSUMPTIONS = ["input, output and iv buffers are distinct objects (in-place use is outside the model: value semantics; in-place CBC and CFB decryption are wrong on the unchanged code and not part of the documented use)",
                "message lengths are lengths of buffers in memory (far below 2^32 - 16), little-endian host",
                "keys have the length the key-size parameter announces"]
 EVIDENCE_NOTES = [
@@ -1385,6 +1801,22 @@ EVIDENCE_NOTES = [
     "tdes_key_schedules_impl_independent (the ctx1..ctx3 bytes of the implementation layer are those three schedules); "
     "tdes_set_key_text_is_three_schedule_calls (source scan of muggle_tdes_set_key, see trusted base): a shortcut path that "
     "compares keys or copies a schedule breaks this obligation before any input is found.",
+    "PARAMETER VALIDATION PROVED (C12/Proofs_SetKey.v): the key size is modelled as the C int it is (aes_set_key_int, bits : Z); "
+    "aes_set_key_accepts_exactly_128_192_256 - for EVERY integer bits, set_key returns OK iff op, mode valid, key and ctx non-NULL "
+    "and bits is 128, 192 or 256 (160, 224, 0, negative, neighbours, large values all refused); aes_set_key_error_code_order (argument "
+    "checks in the order of the code, the key size last), aes_set_key_other_sizes_rejected, aes_set_key_int_is_aes_set_key (the int "
+    "entry point is the entry point of the other API theorems at Z.to_N bits), aes_set_key_context_iff_accepted / "
+    "des_tdes_set_key_context_iff_accepted (a refused set_key yields no context - observed by the driver as 'key-schedule area "
+    "untouched' and 'nothing to run on' - an accepted one the stored op / mode and the schedule of the announced size and "
+    "direction), des_tdes_set_key_accept_exactly.  TIED TO THE C TEXT on every run: set_key_text_matches_reference (the three "
+    "translated functions equal reference functions on all integer arguments, by a decision tactic that does not depend on the "
+    "shape of the text: conditionals split innermost-first, masks / shifts turned into mod / div, lia under a time limit), "
+    "openssl_aes_set_key_text_accepts_exactly_128_192_256 (the translated key-size chain returns 0 exactly for 128/192/256 over all of "
+    "Z, otherwise the key-size code and no key-expansion call; on success one call with (Nr, Nk) of the specification's table), "
+    "aes_set_key_text_returns_model_error_code (muggle_aes_set_key composed with the chain returns the model's error code for every "
+    "int op, mode, bits and NULL / non-NULL key, ctx; bits reaches the chain unchanged), "
+    "des_set_key_text_returns_model_error_code (and the schedule direction handed to the key schedule is the model's).  A test "
+    "such as 'bits % 32 == 0 && 4 <= bits/32 <= 8' breaks these obligations and is found by the kbits-* sweep as a concrete input.",
     "COVERED BY THE DIFFERENTIAL RUN AND THE MONITOR ONLY: that the hand-transcribed control structure of the implementation "
     "layer is the control structure of the C code (Impl_DES.v against openssl_des.c; in Impl_AES.v the state view, shift_row "
     "byte loops, add_round_key, rot_word, key expansion loop and round loops against openssl_aes.c) - additionally checked on "
@@ -1393,8 +1825,13 @@ EVIDENCE_NOTES = [
     "(ASan, exact-size heap buffers, aligned and misaligned).  Because that structure is not extracted, behaviour-preserving "
     "rewrites of it (for <-> while, walking round-key pointer, % 4 <-> & 3) leave the obligations untouched.  "
     "crypt/internal/* is dead code in this configuration (MUGGLE_CRYPT_OPTIMIZATION=1) and is not exercised.",
-    "NOT COVERED: in-place operation (input == output), for which CBC decryption of the library would use the overwritten "
-    "block as the next iv - the property and the headers do not promise it; big-endian hosts; lengths >= 2^32 - 16.",
+    "NOT COVERED: in-place operation (input == output).  The model has value semantics (input, output and iv are distinct "
+    "values), so aliasing is outside every theorem's quantifier and the drivers always pass distinct exact-size heap blocks.  On "
+    "the unchanged code in-place DECRYPTION is wrong for CBC (the overwritten ciphertext block is taken as the next iv: aes.c "
+    "muggle_aes_cbc, des.c / tdes.c alike) AND for CFB (iv[offset] = input[i] is read after output[i] was stored: aes.c "
+    "muggle_aes_cfb128, des.c muggle_des_cfb64, tdes.c muggle_tdes_cfb64); in-place ECB / OFB / CTR and in-place encryption happen "
+    "to work but are not checked either - the property text and the headers do not promise in-place use.  Also not covered: "
+    "big-endian hosts; lengths >= 2^32 - 16; the MUGGLE_CRYPT_OPTIMIZATION=0 build (crypt/internal/*.c and the #else branches).",
     "Defect confirmed and repaired by fixes/C12-aes-null-offset.patch (committed in the repository as 'fix: reject NULL "
     "iv_offset / nonce in muggle_aes_cfb128, muggle_aes_ofb128, muggle_aes_ctr'): muggle_aes_cfb128 / muggle_aes_ofb128 dereferenced a "
     "NULL iv_offset and muggle_aes_ctr a NULL nonce instead of returning MUGGLE_ERR_NULL_PARAM (the DES/TDES counterparts "
@@ -1406,7 +1843,8 @@ EVIDENCE_NOTES = [
     "key expansion without the extra SubWord, 3DES CFB offset wrap '% 7', DES CBC iv not written back, two-key 3DES shortcut with a wrong equivalence mask (caught by "
     "the related-key family and by the source-scan obligation); an error-code change "
     "is reported as a broken correspondence (no-failing-input-found); quiet on '& 0x0f' -> '% 16', '/ 8' -> '>> 3', a "
-    "rewritten counter carry.",
+    "rewritten counter carry.  Round 5: AES key-size test rewritten as 'bits % 32 == 0 && 4 <= bits/32 <= 8' (160 / 224 accepted) - "
+    "caught by kbits-* / corpus setkey-aes-keysize-160-224 with a concrete replay and by the text obligations; see DESIGN.md 11.",
 ]
 MANIFEST = {
     "level_text": ("Unbounded Coq theorems over (a) an executable specification layer transcribing FIPS-197 and FIPS 46-3 "
